@@ -313,6 +313,52 @@ def family_F4(profiles=("unit", "cap2", "lectight")):
                             yield make3(2, 4, nl, sprefs, lect, tuple(lprefs), pq, lq3)
 
 
+def family_M(sizes=(4, 5), nls=(2, 3)):
+    """Medium structured instances (4-5 students, 4 projects, 2-3 lecturers):
+    cyclic / crossing preference patterns on a deterministic grid - list
+    length, step of the cycle, tie pattern, lecturer order pattern, quotas."""
+    np_ = 4
+    for ns in sizes:
+        for nl in nls:
+            lect = tuple((p % nl) + 1 for p in range(np_))
+            for k in (2, 3):
+                for step in (1, 3):
+                    for tie in ("none", "last2", "all"):
+                        sprefs = []
+                        for i in range(ns):
+                            lst = []
+                            for j in range(k):
+                                p = (i + j * step) % np_ + 1
+                                if p not in lst:
+                                    lst.append(p)
+                            if tie == "none" or len(lst) == 1:
+                                groups = tuple((p,) for p in lst)
+                            elif tie == "all":
+                                groups = (tuple(lst),)
+                            else:
+                                groups = tuple((p,) for p in lst[:-2]) + (tuple(lst[-2:]),)
+                            sprefs.append(groups)
+                        sprefs = tuple(sprefs)
+                        for lorder in ("asc", "desc", "cross"):
+                            lprefs = []
+                            for kk in range(1, nl + 1):
+                                acc = list(acceptable_students(sprefs, lect, kk))
+                                if lorder == "desc" or (lorder == "cross" and kk % 2 == 0):
+                                    acc = acc[::-1]
+                                if lorder == "cross" and len(acc) >= 3:
+                                    lprefs.append(((acc[0],), tuple(acc[1:3])) +
+                                                  tuple((x,) for x in acc[3:]))
+                                else:
+                                    lprefs.append(tuple((x,) for x in acc))
+                            lprefs = tuple(lprefs)
+                            for puq in (1, 2):
+                                for plq in (0, 1):
+                                    pq = ((plq, puq),) + tuple((0, puq) for _ in range(np_ - 1))
+                                    luq = -(-ns // nl) + (puq - 1)
+                                    lq3 = tuple((0, 1, luq) for _ in range(nl))
+                                    yield make3(ns, np_, nl, sprefs, lect, lprefs, pq, lq3)
+
+
 def family_W(big=True):
     """Multi-digit ids: 12 projects (2 students) and 11 students (2 projects).
     big=False leaves out the 11-student instances."""
